@@ -594,8 +594,9 @@ def run_property(prop, tier, only=None, workers=None):
     lines = []
     for j in sorted(jobs, key=lambda j: j.id):
         if j.status == 'violated':
-            key = j.ob.finding
-            if key and (prop, key) in known:
+            # a recorded finding is identified by the obligation's finding key or, more narrowly, by the exact shard (job id)
+            key = next((k for k in (j.id, j.ob.finding) if k and (prop, k) in known), None)
+            if key:
                 j.status = 'known'
                 lines.append('KNOWN-FINDING: property=%s %s [%s]' % (prop, known[(prop, key)]['what'], j.id))
             else:
